@@ -71,7 +71,8 @@ theorem substitute_removing (h m h' : NNet) (c : Nat) (hw : WF h) (mw : WF m) (h
     (hio : h.net.io.contains c = false) (hcf : (h.net.node c).isFork = false)
     (hr : noIgnoredB h c m = true) (hok : implOKB m = true) (he : substitute h c m = some h') :
     ∃ h5 map dang sh dn r, substituteCore h c m = some (h5, map, dang) ∧ SubstCert h c m sh dn map h5 ∧
-      WFm h' ∧ Emb h5 h' r := by
+      WFm h' ∧ Emb h5 h' r ∧
+      ∀ j, j < h5.net.nodes.size → isSeqKind (h5.net.node j).kind = true → ∃ j', j' < h'.net.nodes.size ∧ r.node j' = j := by
   unfold substitute at he
   split at he
   · exact absurd he (by simp)
@@ -81,7 +82,33 @@ theorem substitute_removing (h m h' : NNet) (c : Nat) (hw : WF h) (mw : WF m) (h
       intro x hx
       obtain ⟨k, hk⟩ := mem_map_values map x hx
       exact ct.mapLt k x hk
-    obtain ⟨w', r, e⟩ := removeDangling_emb _ h5 _ dang h' ct.wf'.toWFm ho he
-    exact ⟨h5, map, dang, sh, dn, r, hcore, ct, w', e⟩
+    obtain ⟨w', r, e, sq⟩ := removeDangling_emb _ h5 _ dang h' ct.wf'.toWFm ho he
+    exact ⟨h5, map, dang, sh, dn, r, hcore, ct, w', e, sq⟩
+
+end KV.Transform
+
+namespace KV.Transform
+open KV
+
+theorem WFm.of_wfNoTrail {nn : NNet} (h : nn.wfNoTrail = true) : WFm nn := by
+  simp only [NNet.wfNoTrail, Bool.and_eq_true, beq_iff_eq, decide_eq_true_eq, List.all_eq_true] at h
+  obtain ⟨⟨⟨⟨h1, h2⟩, h3⟩, h4⟩, h5⟩ := h
+  refine ⟨h1, h2, h3, ?_, ?_, ?_⟩
+  · intro l hl
+    simp only [NNet.pinsBack, List.all_eq_true, List.mem_range, Bool.and_eq_true, decide_eq_true_eq, beq_iff_eq] at h4
+    have := h4 l hl
+    exact ⟨this.1.1.1, this.1.1.2, this.1.2, this.2⟩
+  · intro i hi p l hp
+    simp only [NNet.pinsFwd, List.all_eq_true, List.mem_range, Bool.and_eq_true] at h5
+    have := (h5 i hi).1 p (getD_some_lt hp)
+    simp only [NodeD.inPin, hp, Bool.and_eq_true, decide_eq_true_eq, beq_iff_eq] at this
+    exact ⟨this.1.1, this.1.2, this.2⟩
+  · intro i hi p l hp
+    simp only [NNet.pinsFwd, List.all_eq_true, List.mem_range, Bool.and_eq_true] at h5
+    have := (h5 i hi).2 p (getD_some_lt hp)
+    simp only [NodeD.outPin, hp, Bool.and_eq_true, decide_eq_true_eq, beq_iff_eq] at this
+    exact ⟨this.1.1, this.1.2, this.2⟩
+
+theorem wf_wfNoTrail {nn : NNet} (h : nn.wf = true) : nn.wfNoTrail = true := wfNoTrail_of_WFm (WF.of_wf h).toWFm
 
 end KV.Transform
